@@ -171,19 +171,13 @@ fn c06_enumerated(kind: Kind, j: usize) -> Option<Scenario> {
     j -= sizes.len();
     // F. a backlog: 40 pipelined requests whose replies all arrive before the first one is collected
     // (more than any queue between a transport's receive side and the session holds), then silence
-    if j < 2 {
+    // (in one unit only: delivered one unit each, with the silence that follows every completed reply, the
+    // last replies would arrive later than the five virtual seconds the client's tasks wait for them)
+    if j < 1 {
         let replies: Vec<Vec<u8>> = (1..=40).map(|i| r(i, 120 + i)).collect();
-        let mut cuts = Vec::new();
-        if j == 1 {
-            let mut acc = 0;
-            for x in &replies {
-                acc += x.len();
-                cuts.push(acc);
-            }
-        }
-        return Some(segmentation_scenario(kind, &[], &replies, &cuts, format!("backlog of 40 replies, {}", if j == 0 { "one unit" } else { "one unit each" })));
+        return Some(segmentation_scenario(kind, &[], &replies, &[], "backlog of 40 replies, one unit".to_string()));
     }
-    j -= 2;
+    j -= 1;
     // G. SSH: the subsystem writes to its stderr (extended-data packets on the same channel) before a
     // reply, between two replies, or between two data packets of one reply; none of it belongs to the stream
     if j < 3 {
@@ -556,7 +550,7 @@ pub static C06: PropSpec = PropSpec {
     runs: |t| if t == Tier::Thorough { 300_000 } else { 500 },
     enumerated: |_| 3 * c06_enum_per_kind() as u64,
     run: run_c06,
-    rule: "enumerated per transport (TLS, local CLI, SSH): a two-reply stream with every single cut from 8 bytes before to 8 bytes after each delimiter (hello, reply 1, reply 2), every pair of cuts inside one delimiter, all groupings of 2 and 3 replies into units, one-byte chunks, single-unit replies of 41 sizes around the receive buffer's capacity boundaries, a backlog of 40 pipelined replies (in one unit, or one unit each) that all arrive before the first is collected, output on the SSH subsystem's stderr (extended data) before, inside and between replies; seeded: 1-5 replies of 110..9000 bytes, 0-5 cuts (half of them within 8 bytes of a delimiter), message boundaries cut or merged, hello cut as well; one seeded run in ten drops the reading future between two deliveries (the bytes it had taken off the stream must stay with the transport); one seeded run in 25 is the outgoing direction: a request of 70-260 KiB, in half of these runs over a connection with 4 KiB socket buffers to a TLS peer that reads 4 KiB per virtual millisecond - the peer must frame every request exactly once, complete, without further traffic from the client. One chunk = one TLS record / one SSH CHANNEL_DATA / one pipe write, delivered in lock-step under the paused clock; after each completed reply the peer stays silent for 400 virtual ms. Oracle: every request resolves to its own reply, within 100 virtual ms of the delivery of the last byte of its delimiter. Distinct = distinct event-log hash; every run is non-trivial",
+    rule: "enumerated per transport (TLS, local CLI, SSH): a two-reply stream with every single cut from 8 bytes before to 8 bytes after each delimiter (hello, reply 1, reply 2), every pair of cuts inside one delimiter, all groupings of 2 and 3 replies into units, one-byte chunks, single-unit replies of 41 sizes around the receive buffer's capacity boundaries, a backlog of 40 pipelined replies (in one unit) that all arrive before the first is collected, output on the SSH subsystem's stderr (extended data) before, inside and between replies; seeded: 1-5 replies of 110..9000 bytes, 0-5 cuts (half of them within 8 bytes of a delimiter), message boundaries cut or merged, hello cut as well; one seeded run in ten drops the reading future between two deliveries (the bytes it had taken off the stream must stay with the transport); one seeded run in 25 is the outgoing direction: a request of 70-260 KiB, in half of these runs over a connection with 4 KiB socket buffers to a TLS peer that reads 4 KiB per virtual millisecond - the peer must frame every request exactly once, complete, without further traffic from the client. One chunk = one TLS record / one SSH CHANNEL_DATA / one pipe write, delivered in lock-step under the paused clock; after each completed reply the peer stays silent for 400 virtual ms. Oracle: every request resolves to its own reply, within 100 virtual ms of the delivery of the last byte of its delimiter. Distinct = distinct event-log hash; every run is non-trivial",
     components: COMPONENTS,
     assumptions: &["Linux delivers loopback TCP and pipe data synchronously with write(); the standing two-worker re-execution check guards the resulting determinism"],
     watchdog_s: 8,
